@@ -18,6 +18,18 @@ import (
 
 func c06Program(r *fw.Rand) (string, string) {
 	d := func() string { return gen.DiceProgram(r) }
+	if r.P(1, 12) {
+		// everything a program can observe about a dict's key order (printing, keys/values/items,
+		// a random pick over them, the process text) is a function of the seed alone
+		pool := []string{"1", "01", "2", "10", "1x", "nan", "NaN", "inf", "-1", "1e1", "10.0", "0x10", " 1", "a", "B", "b", "é", "中", "", "1 ", "+1", "9", "09", "1.0", "k", "2x", "x2", "100", "20"}
+		n := r.Range(3, 9)
+		var kv []string
+		for _, i := range r.Perm(len(pool))[:n] {
+			kv = append(kv, "'"+pool[i]+"': "+r.Pick([]string{"1", "d6", "'v'", "2d1000"}))
+		}
+		lit := "{" + strings.Join(kv, ", ") + "}"
+		return "dd = " + lit + "; vv = dd.values(); [dd.keys(), vv, toStr(dd), dd.items(), dd.keys().rand(), vv[0], `{dd}`]", "dict-order"
+	}
 	switch r.Intn(20) {
 	case 0, 1, 2:
 		return d(), "dice"
@@ -295,7 +307,7 @@ func init() {
 		Floors: func(tier string) map[string]int64 {
 			return map[string]int64{"programs": 5000, "replays": 15000, "resumptions": 3000, "family_shuffle": 200, "family_rand": 200, "family_randSize": 200}
 		},
-		MaxShards: 8,
+		MaxShards:   8,
 		Rule:        "case = dice-using program (14 shapes: every family, dice in functions / computed values / templates / loops / branches / containers, default-sides dice with DefaultDiceSideExpr, shuffle/rand/randSize, recursion) × seed. Quiet run with the roll tap (every die's generator must be the context's) and a snapshot of the package-level generator (must not move); then three replays with the same seed while perturbers run on other goroutines (unseeded VMs rolling every family and shuffling, differently seeded VMs, direct Roll(nil) and x/exp/rand global draws): Ret, detail text and final generator state must be identical. Resumption: GetCurSeed after P1 installed in a fresh context must reproduce P2 exactly. 4%: the same seeded program must print identically 48 times. distinct = hash(program, configuration)",
 		Assumptions: []string{"randomness that bypasses Roll (array methods) is invisible to the tap and is caught by replay inequality"},
 	})
